@@ -57,7 +57,7 @@ func init() {
 		Verdict: []string{"recover.", "ledger.monitor", "commit.error", "reopen"},
 		Rule: "mixed array/map/nested histories (incl. temporary-owner containers) with commits at random strides and flavours; after EVERY step the crash point is evaluated: the ledger write monitor must show no register written or deleted since the last commit, and at a stride (every step in thorough) a brand-new storage over a copy of the durable registers must reconstruct exactly the model snapshot of the last successful commit; after every successful commit it must reconstruct the current model; real crashes (abandon, drop-deltas+drop-cache, panic inside the k-th callback of an operation, allocation error, crash in the middle of a commit with ledger rollback) are injected as steps, and some commits fail on a ledger write (by position or by register identity) for one or two attempts before the retry succeeds and the history continues on the recovered state. Non-trivial = at least one commit, one real crash and a container of >= 3 slabs; distinct by trace hash",
 		ExpectedReach: []string{"commit.failed-attempt", "crash.abandon", "crash.drop", "crash.panic-in-callback", "crash.after-ledger-error", "crash.mid-commit-rollback", "crash.enumerated"},
-		Directed: []func() *Trace{directedManyChildMaps, directedManyCompactMaps},
+		Directed: []func() *Trace{directedManyChildMaps, directedManyCompactMaps, directedSharedTypeInfos},
 	}, stdHooks{
 		config: func(r *Rng, tier string) Config {
 			c := baseConfig(r, "crash", tier)
@@ -125,6 +125,27 @@ func directedManyCompactMaps() *Trace {
 	for i := 0; i < 420; i++ {
 		tr.Steps = append(tr.Steps, Step{Op: "a.append", C: 1, V: &VSpec{Map: &CSpec{CID: 10 + i, T: TypeInfo{Comp: true, N: 1},
 			K: []VSpec{{S: &[2]int{7000 + i, 6}}}, V: []VSpec{{U: u64p(uint64(i))}}}}})
+	}
+	tr.Steps = append(tr.Steps, Step{Op: "commit", Flavour: "fc", Workers: 1})
+	return tr
+}
+
+// directedSharedTypeInfos: 80 type infos, each carried by two small child maps and one child array of one parent
+// slab at the largest slab size: the slab's shared type-info table (entries referenced by index from the extra
+// data of the inlined children) grows past the indexes that fit CBOR's one-byte form, while the number of extra-data
+// records in the slab (160 maps, 80 arrays) stays under the limit of the recorded finding.
+func directedSharedTypeInfos() *Trace {
+	tr := &Trace{Property: "C03", Config: Config{Profile: "crash", Slab: 32768, CollLimit: 255, OracleStride: 100000, MaxSteps: 600}}
+	t := TypeInfo{N: 0}
+	tr.Steps = append(tr.Steps, Step{Op: "new", CID: 1, Sub: "arr", Owner: 1, T: &t})
+	for i := 0; i < 160; i++ {
+		ti := TypeInfo{N: uint64(1 + i%80)}
+		tr.Steps = append(tr.Steps, Step{Op: "a.append", C: 1, V: &VSpec{Map: &CSpec{CID: 10 + 2*i, T: ti,
+			K: []VSpec{{U: u64p(uint64(1000 + i))}}, V: []VSpec{{U: u64p(uint64(i))}}}}})
+		if i < 80 {
+			tr.Steps = append(tr.Steps, Step{Op: "a.append", C: 1, V: &VSpec{Arr: &CSpec{CID: 11 + 2*i, T: ti,
+				E: []VSpec{{U: u64p(uint64(i))}}}}})
+		}
 	}
 	tr.Steps = append(tr.Steps, Step{Op: "commit", Flavour: "fc", Workers: 1})
 	return tr
